@@ -45,7 +45,7 @@ var checks = map[string]checkCfg{
 		Real:   []string{"builder.FromPcap", "gopacket reassembly", "udpreassembly", "libpcap (cgo) reading real pcap/pcapng files", "index writer/reader", "second engine: the whole manager (as in C10)"},
 		Stub:   []string{"network path and capture tap (netsim)", "wall clock", "map order", "second engine: job scheduling, clock, map order (controller)"},
 		Assume: []string{"netsim ground truth is what the endpoints exchanged", "well-formed traffic only: no capture loss, no conflicting overlaps, no IP fragments, handshake-complete TCP"}},
-	"C08": {Engine: "bsim", Engine2: "mgrsim", Engine2Every: 2, QuickS: 40, ThoroughS: 900, Level: "exploration",
+	"C08": {Engine: "bsim", Engine2: "mgrsim", Engine2Every: 2, QuickS: 60, ThoroughS: 900, Level: "exploration",
 		Rule:   "one case = one seeded capture set and 2-5 import histories (partition into batches x arrival order chronological/reversed/shuffled x importer restarts x snapshot files kept or dropped x snapshot interval 5..200 packets or shipped 100000), each compared with a one-shot import up to stream numbering, plus id stability after every batch. distinct = distinct hash of (capture shape, histories); non-trivial = more than one file or a conversation spanning files. Every second worker runs mgrsim: the captures are imported through the service in seeded batches and orders with merges, restarts and disk errors in between, and every view is compared with a one-shot import of the captures reported processed",
 		Real:   []string{"builder.FromPcap / builder.New", "snapshots save/load", "index writer/reader", "libpcap", "second engine: the whole manager"},
 		Stub:   []string{"network path and capture tap (netsim)", "wall clock", "map order", "snapshot interval knob"},
@@ -58,11 +58,11 @@ var checks = map[string]checkCfg{
 		Rule: "one case = one seeded plan and schedule; at every applied merge completion the visible state (all streams with metadata, payload, packet references, shown tags) and a battery of ~20 searches is taken through fresh views immediately before and after and must be identical; views held across a merge must answer as before; every third worker (bsim) stacks independent imports in a seeded order, merges every suffix with index.Merge, merges the result again and compares visible streams and a search battery that includes time-bound searches with bounds taken from the streams. distinct = distinct schedule signature; non-trivial = at least one merge was applied",
 		Real: realCommon, Stub: stubCommon,
 		Assume: []string{"searches in the battery use total sort orders (unique first-packet times by construction, id as last key)"}},
-	"C09": {Engine: "mgrsim", QuickS: 40, ThoroughS: 1200, Level: "exploration",
+	"C09": {Engine: "mgrsim", QuickS: 60, ThoroughS: 1200, Level: "exploration",
 		Rule: "one case = one seeded plan and schedule including slow jobs, converter failures (exit, protocol violation), corrupt/empty uploads, create errors and disk full during import/merge bodies, in run indices 1 mod 3 a gate inside the converter job (between two rounds of conversions); after the last API call the controller keeps choosing enabled background steps until none is enabled; violation = a step that never returns (watchdog 30 s), more than 200+40(T+1)(F+C+1) drain steps, or no step enabled while queue/flags/uncertain/to-convert are non-empty. distinct = distinct schedule signature; non-trivial = overlap of jobs and API calls",
 		Real: realCommon, Stub: stubCommon,
 		Assume: []string{"watchdog 30 s real time is far above the slowest step (<1 s)"}},
-	"C10": {Engine: "mgrsim", QuickS: 40, ThoroughS: 1200, Level: "exploration",
+	"C10": {Engine: "mgrsim", QuickS: 60, ThoroughS: 1200, Level: "exploration",
 		Rule: "one case = one seeded plan and schedule; views are opened at seeded steps (empty service, between import body and completion, across merges) and compared (a) with a one-shot reference import of exactly the captures whose completion was applied, (b) with themselves at every later read. distinct = distinct schedule signature; non-trivial = a view was opened while jobs were in flight or re-read after further steps",
 		Real: realCommon, Stub: stubCommon,
 		Assume: []string{"a view counts as opened at its first use", "one-shot import is the reference (C05/C08)"}},
@@ -83,7 +83,7 @@ var checks = map[string]checkCfg{
 		Real:   []string{"converters.cacheFile (all of it)"},
 		Stub:   []string{"compaction threshold knob", "no converter process (records are generated)"},
 		Assume: []string{"zero-length chunks carry no data and may vanish"}},
-	"C16": {Engine: "mgrsim", QuickS: 40, ThoroughS: 1200, Level: "exploration",
+	"C16": {Engine: "mgrsim", QuickS: 60, ThoroughS: 1200, Level: "exploration",
 		Rule: "one case = one seeded plan with the harness converter attached/detached/reset, imports extending converted streams, on-demand conversions, transient converter failures, under a seeded schedule; after every step every cached output seen through a fresh view must carry the digest of that view's payload; at quiescence every decided match of a tag with a converter has output. Run indices 1 mod 3 park the converter job also between two rounds of conversions (steps of other actors land inside the job); some of those are quiet plans (one or two tags sharing a converter, captures imported in order, a late detach). distinct = distinct schedule signature; non-trivial = a converter job ran",
 		Real: realCommon, Stub: stubCommon,
 		Assume: []string{"the harness converter prints a digest of its whole input"}},
